@@ -106,6 +106,10 @@ TFlushDone == Ev("FlushDone") /\ FlushDone
 \* applications of one segment - fall inside the specification's atomic RecReplay step: stuttering)
 TSnapshot == /\ Ev("Snapshot")
              /\ \/ rec.pc = "replay"
+                \* a table that the ingestion holding the lock is just creating (tables are created before
+                \* the IngestCatalogue event is emitted) exists already, and is empty
+                \/ /\ R.t \notin tabs /\ ing[C].pc = "locked"
+                   /\ R.parts = <<>> /\ R.frozen = 0 /\ R.buffer = 0
                 \/ /\ R.t \in tabs
                    /\ PartIds(parts[R.t]) = PartIdsOfSeq(R.parts)
                    /\ SumRows(R.t, frozen[R.t]) = R.frozen
